@@ -515,7 +515,7 @@ Proof.
   apply (fp_centres_mapped (scale_map (V2 s s) center) false s 0 (Qabs s)
            (fun p => vadd (vscale (vsub p center) s) center)
            (fun wo => vmul wo (flex_wo_scale (fp_scale_width f) s))).
-  - split; [reflexivity|]. exists (fun x => vscale x s). reflexivity.
+  - split; [reflexivity|]. exists (fun x => vscale x (Qabs s)). reflexivity.
   - intros p. unfold aff_apply, scale_map, vadd, vscale, vsub; split; simpl; ring.
   - intros wo. unfold rsign, vmul, flex_wo_scale; simpl. ring.
   - apply similarity_scale.
@@ -556,21 +556,24 @@ Proof.
   - unfold angle_ok in Ha. rewrite Ha. reflexivity.
 Qed.
 
-(* what FlexPath::transform would have to do (flexpath_transform_required) is right for every
-   magnification, both reflection states and every angle *)
-Theorem flexpath_transform_required_centre_lemma T f e k c0 c1 :
+Definition fp_offsets_of (f : flexpath) : list (list Q) := map (fun el => map vy (fe_hwo el)) (fp_elems f).
+Definition fp_half_widths_of (f : flexpath) : list (list Q) := map (fun el => map vx (fe_hwo el)) (fp_elems f).
+
+(* FlexPath::transform (as repaired): right for every magnification, both reflection states and
+   every angle *)
+Theorem flexpath_transform_centre_lemma T f e k c0 c1 :
   angle_ok (p_rot T) ->
   fp_centres f e k c0 c1 ->
-  fp_centres (flexpath_transform_required T f) e k
+  fp_centres (flexpath_transform T f) e k
              (aff_apply (placement_map T) c0) (aff_apply (placement_map T) c1).
 Proof.
   intros Ha.
   apply (fp_centres_mapped (placement_map T) (p_xrefl T) (p_mag T * acos (p_rot T)) (p_mag T * asin (p_rot T))
            (Qabs (p_mag T)) (pt_transform T)
-           (fun wo => vmul wo (flex_wo_required (fp_scale_width f) (p_mag T) (p_xrefl T)))).
+           (fun wo => vmul wo (flex_wo_transform (fp_scale_width f) (p_mag T) (p_xrefl T)))).
   - split; [reflexivity|]. exists (fun x => vscale x (Qabs (p_mag T))). reflexivity.
   - apply pt_transform_affine.
-  - intros wo; unfold vmul, flex_wo_required; simpl; ring.
+  - intros wo; unfold vmul, flex_wo_transform, rsign; destruct (p_xrefl T); simpl; ring.
   - apply similarity_placement.
   - apply Qabs_nonneg.
   - rewrite Qabs_sq.
@@ -578,38 +581,43 @@ Proof.
     unfold angle_ok in Ha. rewrite Ha. ring.
 Qed.
 
-(* FlexPath::transform as written is right on the part of its domain where it coincides with the
-   required map: no reflection and a non-negative magnification *)
-Theorem flexpath_transform_centre_partial T f e k c0 c1 :
-  angle_ok (p_rot T) -> p_xrefl T = false -> 0 <= p_mag T ->
-  fp_centres f e k c0 c1 ->
-  fp_centres (flexpath_transform T f) e k
-             (aff_apply (placement_map T) c0) (aff_apply (placement_map T) c1).
-Proof.
-  intros Ha Hx Hm.
-  apply (fp_centres_mapped (placement_map T) (p_xrefl T) (p_mag T * acos (p_rot T)) (p_mag T * asin (p_rot T))
-           (p_mag T) (pt_transform T)
-           (fun wo => vmul wo (flex_wo_transform (fp_scale_width f) (p_mag T)))).
-  - split; [reflexivity|]. exists (fun x => vscale x (p_mag T)). reflexivity.
-  - apply pt_transform_affine.
-  - intros wo; rewrite Hx; unfold vmul, flex_wo_transform, rsign; simpl; ring.
-  - apply similarity_placement.
-  - exact Hm.
-  - transitivity (p_mag T * p_mag T * (acos (p_rot T) * acos (p_rot T) + asin (p_rot T) * asin (p_rot T))); [|ring].
-    unfold angle_ok in Ha. rewrite Ha. ring.
-Qed.
-
-(* width clause: half widths change iff scale_width (by |s|), offsets always *)
+(* width clause: half widths change iff scale_width (by |s|), offsets always, extensions by |s| *)
 Theorem flexpath_scale_widths_lemma s center f :
   fp_elems (flexpath_scale s center f) =
   map (fe_map (fun wo => V2 (vx wo * (if fp_scale_width f then Qabs s else 1)) (vy wo * Qabs s))
-              (fun x => vscale x s)) (fp_elems f).
+              (fun x => vscale x (Qabs s))) (fp_elems f).
 Proof. reflexivity. Qed.
 
-(* F7: FlexPath::transform with x_reflection (resp. with a negative magnification) and a non-zero
-   offset: the centre line of the transformed path is NOT the image of the centre line. *)
+(* parameters after FlexPath::transform: half widths times |mag| iff scale_width, offsets times
+   r * |mag| (r = -1 under x_reflection), end extensions times |mag| - never a negative width,
+   never a negative extension *)
+Theorem flexpath_transform_params_lemma T f :
+  fp_elems (flexpath_transform T f) =
+  map (fe_map (fun wo => V2 (vx wo * (if fp_scale_width f then Qabs (p_mag T) else 1))
+                            (vy wo * (if p_xrefl T then - Qabs (p_mag T) else Qabs (p_mag T))))
+              (fun x => vscale x (Qabs (p_mag T)))) (fp_elems f).
+Proof. reflexivity. Qed.
+
+Theorem flexpath_transform_offsets_lemma T f el wo :
+  In el (fp_elems (flexpath_transform T f)) -> In wo (fe_hwo el) ->
+  exists wo0, vy wo == rsign (p_xrefl T) * Qabs (p_mag T) * vy wo0 /\
+              vx wo == (if fp_scale_width f then Qabs (p_mag T) else 1) * vx wo0 /\
+              (0 <= vx wo0 -> 0 <= vx wo).
+Proof.
+  rewrite flexpath_transform_params_lemma. intros He Hw.
+  apply in_map_iff in He. destruct He as (el0 & <- & _).
+  unfold fe_map in Hw; simpl in Hw. apply in_map_iff in Hw. destruct Hw as (wo0 & <- & _).
+  exists wo0. simpl. repeat split.
+  - unfold rsign; destruct (p_xrefl T); ring.
+  - ring.
+  - intros H0. destruct (fp_scale_width f).
+    + apply Qmult_le_0_compat; [exact H0|apply Qabs_nonneg].
+    + setoid_replace (vx wo0 * 1) with (vx wo0) by ring. exact H0.
+Qed.
+
+(* the two probes that exposed finding F7, now on the right side of the spine *)
 Definition f7_path : flexpath :=
-  FP [V2 0 0; V2 1 0] [FE [V2 (1#2) 1; V2 (1#2) 1] vzero] true.
+  FP [V2 0 0; V2 1 0] (FE [V2 (1#2) 1; V2 (1#2) 1] vzero :: nil) true.
 Definition f7_reflect : placement := Pl vzero azero 1 true.
 Definition f7_negmag : placement := Pl vzero azero (-1) false.
 
@@ -619,25 +627,37 @@ Proof.
   repeat split; try reflexivity; exists 1; repeat split; vm_compute; try reflexivity; discriminate.
 Qed.
 
+Example flexpath_transform_probes :
+  fp_centres (flexpath_transform f7_reflect f7_path) 0 0
+             (aff_apply (placement_map f7_reflect) (V2 0 1)) (aff_apply (placement_map f7_reflect) (V2 1 1)) /\
+  fp_centres (flexpath_transform f7_negmag f7_path) 0 0
+             (aff_apply (placement_map f7_negmag) (V2 0 1)) (aff_apply (placement_map f7_negmag) (V2 1 1)) /\
+  map (map Qred) (fp_offsets_of (flexpath_transform f7_reflect f7_path)) = ([-1; -1] :: nil) /\
+  map (map Qred) (fp_offsets_of (flexpath_transform f7_negmag f7_path)) = ([1; 1] :: nil) /\
+  map (map Qred) (fp_half_widths_of (flexpath_transform f7_negmag f7_path)) = ([1#2; 1#2] :: nil).
+Proof.
+  split; [apply flexpath_transform_centre_lemma; [reflexivity|apply f7_path_centres]|].
+  split; [apply flexpath_transform_centre_lemma; [reflexivity|apply f7_path_centres]|].
+  vm_compute. repeat split.
+Qed.
+
+(* the code before the repair does not have the property (what the outline oracle of
+   harness/c10_transform.cpp reports when df9071a is reverted) *)
 Lemma f7_no_centre T c0 c1 :
   (T = f7_reflect /\ c0 = V2 0 (-1)) \/ (T = f7_negmag /\ c0 = V2 0 (-1)) ->
-  ~ fp_centres (flexpath_transform T f7_path) 0 0 c0 c1.
+  ~ fp_centres (flexpath_transform_unrepaired T f7_path) 0 0 c0 c1.
 Proof.
   intros HT (p & q & el & wo0 & wo1 & N1 & N2 & N3 & N4 & N5 & (t & [E1 E2] & E3 & E4) & _).
   destruct HT as [[-> ->]|[-> ->]]; vm_compute in N1, N2, N3;
   injection N1 as <-; injection N2 as <-; injection N3 as <-;
   vm_compute in N4; injection N4 as <-;
-  unfold vadd, vscale, ortho, vsub in *; simpl in *.
-  - (* reflection: spine stays, offset stays +1, but the image of the centre is (0,-1) *)
-    lra.
-  - (* magnification -1: spine (0,0),(-1,0), offset becomes -1, image of the centre is (0,-1) *)
-    lra.
+  unfold vadd, vscale, ortho, vsub in *; simpl in *; lra.
 Qed.
 
-Theorem flexpath_transform_refuted :
+Theorem flexpath_transform_unrepaired_refuted :
   exists T f e k c0 c1,
     angle_ok (p_rot T) /\ fp_centres f e k c0 c1 /\
-    ~ fp_centres (flexpath_transform T f) e k (aff_apply (placement_map T) c0) (aff_apply (placement_map T) c1).
+    ~ fp_centres (flexpath_transform_unrepaired T f) e k (aff_apply (placement_map T) c0) (aff_apply (placement_map T) c1).
 Proof.
   exists f7_reflect, f7_path, 0%nat, 0%nat, (V2 0 1), (V2 1 1).
   split; [reflexivity|]. split; [apply f7_path_centres|].
@@ -649,35 +669,6 @@ Proof.
   eapply centre_rel_proper; [apply veq_refl|apply veq_refl|reflexivity| |exact C0].
   split; vm_compute; reflexivity.
 Qed.
-
-Theorem flexpath_transform_negative_magnification_refuted :
-  exists T f e k c0 c1,
-    angle_ok (p_rot T) /\ p_xrefl T = false /\ fp_centres f e k c0 c1 /\
-    ~ fp_centres (flexpath_transform T f) e k (aff_apply (placement_map T) c0) (aff_apply (placement_map T) c1).
-Proof.
-  exists f7_negmag, f7_path, 0%nat, 0%nat, (V2 0 1), (V2 1 1).
-  split; [reflexivity|]. split; [reflexivity|]. split; [apply f7_path_centres|].
-  intros H.
-  apply (f7_no_centre f7_negmag (V2 0 (-1)) (aff_apply (placement_map f7_negmag) (V2 1 1))); [right; split; reflexivity|].
-  destruct H as (p & q & el & wo0 & wo1 & N1 & N2 & N3 & N4 & N5 & C0 & C1).
-  exists p, q, el, wo0, wo1.
-  refine (conj N1 (conj N2 (conj N3 (conj N4 (conj N5 (conj _ C1)))))).
-  eapply centre_rel_proper; [apply veq_refl|apply veq_refl|reflexivity| |exact C0].
-  split; vm_compute; reflexivity.
-Qed.
-
-(* the same two witnesses at the level of parameters: the offsets (and, for a negative
-   magnification, the half widths) FlexPath::transform stores differ from the required ones *)
-Definition fp_offsets (f : flexpath) : list (list Q) := map (fun el => map vy (fe_hwo el)) (fp_elems f).
-Definition fp_half_widths (f : flexpath) : list (list Q) := map (fun el => map vx (fe_hwo el)) (fp_elems f).
-Theorem flexpath_transform_params_refuted :
-  fp_offsets (flexpath_transform f7_reflect f7_path) = ([1; 1] :: nil) /\
-  fp_offsets (flexpath_transform_required f7_reflect f7_path) = ([-1; -1] :: nil) /\
-  map (map Qred) (fp_offsets (flexpath_transform f7_negmag f7_path)) = ([-1; -1] :: nil) /\
-  map (map Qred) (fp_offsets (flexpath_transform_required f7_negmag f7_path)) = ([1; 1] :: nil) /\
-  map (map Qred) (fp_half_widths (flexpath_transform f7_negmag f7_path)) = ([-1#2; -1#2] :: nil) /\
-  map (map Qred) (fp_half_widths (flexpath_transform_required f7_negmag f7_path)) = ([1#2; 1#2] :: nil).
-Proof. vm_compute. repeat split. Qed.
 
 (* ------------------------------------------------------------------ RobustPath *)
 Definition op_ok (o : op) : Prop :=
@@ -1028,11 +1019,10 @@ Print Assumptions flexpath_translate_centre_lemma.
 Print Assumptions flexpath_scale_centre_lemma.
 Print Assumptions flexpath_mirror_centre_lemma.
 Print Assumptions flexpath_rotate_centre_lemma.
-Print Assumptions flexpath_transform_required_centre_lemma.
-Print Assumptions flexpath_transform_centre_partial.
-Print Assumptions flexpath_transform_refuted.
-Print Assumptions flexpath_transform_negative_magnification_refuted.
-Print Assumptions flexpath_transform_params_refuted.
+Print Assumptions flexpath_transform_centre_lemma.
+Print Assumptions flexpath_transform_params_lemma.
+Print Assumptions flexpath_transform_offsets_lemma.
+Print Assumptions flexpath_transform_unrepaired_refuted.
 Print Assumptions robustpath_op_trafo_lemma.
 Print Assumptions robustpath_op_scales_lemma.
 Print Assumptions robustpath_op_centre_lemma.
@@ -1042,17 +1032,57 @@ Print Assumptions repetition_transform_linear_lemma.
 Print Assumptions rpolygon_transform_required_denote_lemma.
 Print Assumptions element_transform_repetition_refuted.
 
-(* ------------------------------------------------------------------ end extensions under a negative factor *)
-(* FlexPath::scale, FlexPath::transform and RobustPath::simple_scale multiply end_extensions by the
-   signed factor: under a point reflection (factor -1) an extended end of length 1 becomes -1, i.e.
-   the path end retracts instead of extending; the affine image requires |factor| * extension
-   (as flexpath_transform_required has it).  Seen by the outline oracle of harness/c10_transform.cpp. *)
-Theorem path_scale_negative_extension_refuted :
+(* ------------------------------------------------------------------ end extensions *)
+(* FlexPath::scale, FlexPath::transform and RobustPath::simple_scale (as repaired by a1ca73a)
+   multiply end_extensions by the MAGNITUDE of the factor: under a point reflection (factor -1) an
+   extended end of length 1 stays an extension of length 1.  (Before, the signed factor was used
+   and extended ends retracted; reverting the repair makes the outline oracle of
+   harness/c10_transform.cpp report `...:negative-factor+end_extensions` again.) *)
+Theorem flexpath_op_extensions_lemma o f :
+  Forall2 veq (map fe_ext (fp_elems (flexpath_apply_op o f)))
+              (map (fun el => vscale (fe_ext el) (op_factor o)) (fp_elems f)).
+Proof.
+  assert (G1 : forall l : list fp_elem, Forall2 veq (map fe_ext l) (map (fun el => vscale (fe_ext el) 1) l)).
+  { induction l; simpl; constructor; auto. unfold vscale; split; simpl; ring. }
+  destruct o; simpl.
+  - apply G1.
+  - rewrite map_map. simpl. induction (fp_elems f); simpl; constructor; auto. apply veq_refl.
+  - unfold flexpath_mirror. destruct (mirror_degenerate p0 p1); [apply G1|].
+    simpl. rewrite map_map. simpl. apply G1.
+  - apply G1.
+  - rewrite map_map. simpl. induction (fp_elems f); simpl; constructor; auto. apply veq_refl.
+Qed.
+
+Theorem robustpath_op_extensions_lemma o r :
+  Forall2 veq (rp_exts (rp_apply_op o r)) (map (fun e => vscale e (op_factor o)) (rp_exts r)).
+Proof.
+  assert (G1 : forall l : list Vec2, Forall2 veq l (map (fun e => vscale e 1) l)).
+  { induction l; simpl; constructor; auto. unfold vscale; split; simpl; ring. }
+  assert (G2 : forall (l : list Vec2) k, Forall2 veq (map (fun e => vscale e k) l) (map (fun e => vscale e k) l)).
+  { induction l; simpl; constructor; auto. apply veq_refl. }
+  destruct o; simpl.
+  - apply G1.
+  - apply G2.
+  - apply G1.
+  - apply G1.
+  - unfold rp_transform. destruct (p_xrefl T); simpl; apply G2.
+Qed.
+
+(* an extension never becomes negative *)
+Theorem path_extension_sign_lemma o e : 0 <= vx e -> 0 <= vy e ->
+  0 <= vx (vscale e (op_factor o)) /\ 0 <= vy (vscale e (op_factor o)).
+Proof.
+  intros Hx Hy. unfold vscale; simpl. split; apply Qmult_le_0_compat; auto using op_factor_nonneg.
+Qed.
+
+Example path_scale_negative_factor_extension :
   map (fun el => vred (fe_ext el)) (fp_elems (flexpath_scale (-1) vzero (FP [V2 0 0; V2 4 0] (FE [V2 1 0; V2 1 0] (V2 1 2) :: nil) true)))
-    = (V2 (-1) (-2) :: nil) /\
-  map vred (rp_exts (rp_scale (-1) vzero (RP aff_id 1 1 (V2 1 2 :: nil) true))) = (V2 (-1) (-2) :: nil) /\
+    = (V2 1 2 :: nil) /\
+  map vred (rp_exts (rp_scale (-1) vzero (RP aff_id 1 1 (V2 1 2 :: nil) true))) = (V2 1 2 :: nil) /\
   map (fun el => vred (fe_ext el))
-      (fp_elems (flexpath_transform_required (Pl vzero azero (-1) false) (FP [V2 0 0; V2 4 0] (FE [V2 1 0; V2 1 0] (V2 1 2) :: nil) true)))
+      (fp_elems (flexpath_transform (Pl vzero azero (-1) false) (FP [V2 0 0; V2 4 0] (FE [V2 1 0; V2 1 0] (V2 1 2) :: nil) true)))
     = (V2 1 2 :: nil).
 Proof. vm_compute. repeat split. Qed.
-Print Assumptions path_scale_negative_extension_refuted.
+Print Assumptions flexpath_op_extensions_lemma.
+Print Assumptions robustpath_op_extensions_lemma.
+Print Assumptions path_extension_sign_lemma.
